@@ -196,6 +196,24 @@ func (r *FileRunner) Exec(f []string) (res string) {
 		r.df.WriteStagedLogRecord(rec, make([]byte, datafile.MaxLogRecordHeaderSize))
 		r.staged = append(r.staged, writtenRec{typ: rec.Type, key: k, val: v, batch: rec.BatchID})
 		return ""
+	case "flushfail":
+		// F flushfail: the back-end refuses the one write of the staged records (nothing reaches the file): the
+		// call must report the error, the staged records are gone with it, and the file goes on as if neither
+		// they nor the call had been there
+		before := r.df.Size()
+		real := r.df.ReadWriter
+		r.df.ReadWriter = failingWriter{real}
+		_, err := r.df.FlushStaged()
+		r.df.ReadWriter = real
+		r.staged = nil
+		if err == nil {
+			r.fail("a flush of staged records the back-end refused was reported as successful")
+			return "ok"
+		}
+		if after := r.df.Size(); after != before {
+			r.fail("a flush the back-end refused moved the logical size from %d to %d", before, after)
+		}
+		return "err io"
 	case "flush":
 		ps, err := r.df.FlushStaged()
 		if err != nil {
